@@ -228,7 +228,7 @@ theorem alignedAt_transfer (K K1 : List Node) (p : Nat) (hn : fnorm K = true) (h
 
 /-! ### what a mark step leaves alone -/
 
-theorem mapIdxCtx_outside (g : Nat → TypeId → Tok → Tok) (top : TypeId) (l : List Tok) (f t : Nat)
+private theorem mapIdxCtx_outside (g : Nat → TypeId → Tok → Tok) (top : TypeId) (l : List Tok) (f t : Nat)
     (hout : ∀ i p tok, ¬ (f ≤ i ∧ i < t) → g i p tok = tok) (i : Nat) (hi : ¬ (f ≤ i ∧ i < t)) :
     (mapIdxCtx g top l)[i]? = l[i]? := by
   rw [mapIdxCtx_getElem?]
